@@ -421,5 +421,5 @@ def machine(ctx):
     return GVMachine
 
 
-PARTS = [Part("history", eval_history, kind="machine", machine=machine, quick=120, thorough=3200, shards=16, quick_shards=8, steps_quick=30, steps_thorough=480,
+PARTS = [Part("history", eval_history, kind="machine", machine=machine, quick=120, thorough=1200, shards=16, quick_shards=8, steps_quick=30, steps_thorough=60,
               rule="see RULE")]
